@@ -102,11 +102,43 @@ func setValue(c *Corpus, t *T, w *W, dst reflect.Value) {
 	case Map:
 		// Half of the maps are built the way user code usually builds them: by inserting into an empty map without a
 		// size hint, which can leave the runtime's map in the middle of an incremental growth.
+		// and a quarter each with a size hint far above the final size, or grown by entries that are deleted again (a
+		// Go map never shrinks): few entries spread over many buckets.
 		var m reflect.Value
-		if n := len(w.L) / 2; n%2 == 1 {
+		n := len(w.L) / 2
+		mode := n % 4
+		switch mode {
+		case 1:
 			m = reflect.MakeMap(dst.Type())
-		} else {
+		case 2:
+			m = reflect.MakeMapWithSize(dst.Type(), 4*n+40)
+		case 3:
+			m = reflect.MakeMap(dst.Type())
+		default:
 			m = reflect.MakeMapWithSize(dst.Type(), n)
+		}
+		var extra []reflect.Value
+		if mode == 3 {
+			for j := 0; j < 40; j++ {
+				k := reflect.New(dst.Type().Key()).Elem()
+				switch t.Key.K {
+				case I16, I32, I64, Enum:
+					k.SetInt(int64(-30000 - j))
+				case Double:
+					k.SetFloat(1e300 + float64(j)*1e290)
+				case String:
+					k.SetString("\x00\x00throwaway" + strconv.Itoa(j))
+				case Struct:
+					if !t.Key.Ptr {
+						continue
+					}
+					k.Set(reflect.New(dst.Type().Key().Elem()))
+				default:
+					continue
+				}
+				m.SetMapIndex(k, reflect.Zero(dst.Type().Elem()))
+				extra = append(extra, k)
+			}
 		}
 		for i := 0; i+1 < len(w.L); i += 2 {
 			k := reflect.New(dst.Type().Key()).Elem()
@@ -114,6 +146,12 @@ func setValue(c *Corpus, t *T, w *W, dst reflect.Value) {
 			v := reflect.New(dst.Type().Elem()).Elem()
 			setValue(c, t.Elem, w.L[i+1], v)
 			m.SetMapIndex(k, v)
+		}
+		for _, k := range extra {
+			// (a throwaway key that happens to equal a real one is not deleted: lengths must stay what the tree says)
+			if m.Len() > n {
+				m.SetMapIndex(k, reflect.Value{})
+			}
 		}
 		dst.Set(m)
 	}
@@ -507,6 +545,103 @@ func createdValue(c *Corpus, t *T, v reflect.Value, nocopy bool, path string, ou
 			if !t.Elem.Scalar() {
 				createdValue(c, t.Elem, e, false, kp, out)
 			}
+		}
+	}
+}
+
+// Scribble does to a decoded object what its owner may do to it with ordinary Go code: it adds an entry to every map,
+// overwrites the elements of scalar and byte slices in place and sets scalars and the pointees of optional scalars
+// (everything in place: the object keeps every piece of memory it had). Fields declared nocopy are left alone (writing through them would write into the input buffer).
+// If the decoder shared anything mutable between this object and another one - or keeps a reference to it - the
+// other object, or a later result, shows it.
+func Scribble(c *Corpus, s *StructDef, rv reflect.Value, depth int) {
+	if depth > 40 {
+		return
+	}
+	for _, f := range s.Fields {
+		if f.NoCopy {
+			continue
+		}
+		fv := rv.FieldByName(f.Name)
+		if f.OptPtr {
+			if fv.IsNil() {
+				continue
+			}
+			fv = fv.Elem()
+		}
+		scribbleT(c, f.T, fv, depth+1)
+	}
+}
+
+func scribbleT(c *Corpus, t *T, v reflect.Value, depth int) {
+	if depth > 40 {
+		return
+	}
+	switch t.K {
+	case Bool:
+		if v.CanSet() {
+			v.SetBool(true)
+		}
+	case I8, I16, I32, I64, Enum:
+		if v.CanSet() {
+			v.SetInt(0x5c)
+		}
+	case Double:
+		if v.CanSet() {
+			v.SetFloat(1.5)
+		}
+	case String:
+		// immutable: nothing an owner can write into (and replacing the header would only release the bytes the
+		// object's recorded extents still name)
+	case Binary:
+		for i := 0; i < v.Len(); i++ {
+			v.Index(i).SetUint(0xcc)
+		}
+	case Struct:
+		if t.Ptr {
+			if v.IsNil() {
+				return
+			}
+			v = v.Elem()
+		}
+		if v.CanAddr() {
+			Scribble(c, c.Get(t.S), v, depth+1)
+		}
+	case List, Set:
+		for i := 0; i < v.Len(); i++ {
+			scribbleT(c, t.Elem, v.Index(i), depth+1)
+		}
+	case Map:
+		if v.IsNil() {
+			return
+		}
+		it := v.MapRange()
+		for it.Next() {
+			// values are not addressable; what they point to is
+			if t.Elem.K == Struct && t.Elem.Ptr {
+				scribbleT(c, t.Elem, it.Value(), depth+1)
+			}
+		}
+		k := reflect.New(v.Type().Key()).Elem()
+		switch t.Key.K {
+		case Bool:
+			k.SetBool(v.Len()%2 == 0)
+		case I8, I16, I32, I64, Enum:
+			k.SetInt(0x5b)
+		case Double:
+			k.SetFloat(2.5)
+		case String:
+			k.SetString("scribbled-key")
+		case Struct:
+			if !t.Key.Ptr {
+				return
+			}
+			k.Set(reflect.New(v.Type().Key().Elem()))
+		default:
+			return
+		}
+		if !v.MapIndex(k).IsValid() { // never replace an entry: the object keeps everything it had
+			v.SetMapIndex(k, reflect.Zero(v.Type().Elem()))
 		}
 	}
 }
